@@ -28,7 +28,7 @@ ASSUMPTIONS = ["stop() runs on the virtual clock: its 1 s polling sleeps are 1 m
 TIMEOUT = {"quick": 900, "thorough": 3600}
 SCTP_CLONES = {"quick": ['s11', 's5'], "thorough": ['s12', 's13', 's14', 's15']}
 STATES = ["connecting", "await_cer", "await_cea", "ready", "ready_idle_soon", "waiting_dwa", "disconnecting"]
-REACTIONS = ["prompt", "late", "never", "close", "dpa_then_close", "handshake_during_stop"]
+REACTIONS = ["prompt", "late", "never", "close", "dpa_then_close", "handshake_during_stop", "dpa_output_pending"]
 
 
 def shards(tier, seed):
@@ -133,6 +133,8 @@ class Case:
             th = threading.Thread(target=stopper, name="stop-caller")
             th.start()
             dpr_seen = {}
+            self.pending_ids = {}
+            self.pending_conn = {}
             dpa_at = {}
             reacted = set()
             newcomer = None
@@ -172,6 +174,20 @@ class Case:
                             dpa_at[i] = it
                         elif react == "close":
                             sp.close()
+                            reacted.add(i)
+                        elif react == "dpa_output_pending":
+                            # the peer is a slow reader (the node's writes are accepted 24 bytes at a time) and still
+                            # has watchdog requests under way when it confirms the disconnect: their answers are
+                            # pending output, to be flushed before the connection is closed
+                            name = f"peer{i + 1}.verif.example"
+                            sp.node_sock.send_plan.extend([("cap", 24)] * 400)
+                            self.pending_conn[i] = h.conn_of(sp)
+                            self.pending_ids[i] = []
+                            for k in range(3):
+                                ids = (7000 + 10 * i + k, 7100 + 10 * i + k)
+                                self.pending_ids[i].append(ids)
+                                sp.send(M.dwr(name, self.REALM, hbh=ids[0], e2e=ids[1]))
+                            sp.send(dpa)
                             reacted.add(i)
                         elif react == "dpa_then_close":
                             sp.send(dpa)
@@ -242,6 +258,25 @@ class Case:
                             self.witness("shutdown.dpr_cause_not_rebooting", {"cause": cause.hex() if cause else None})
                 if not sp.node_sock.closed:
                     self.witness(f"shutdown.peer_socket_open_after_stop.{st}", {"conn": i})
+            for i, idl in self.pending_ids.items():
+                sp = self.sp[i]
+                sp.drain()
+                got = {(f.h.hbh, f.h.e2e) for f in sp.frames if f.h.code == 280 and not f.is_request}
+                answered = [x for x in idl if x in got]
+                self.run.cov["dpa_with_output_pending"] = self.run.cov.get("dpa_with_output_pending", 0) + 1
+                self.run.cov["pending_answers_flushed"] = self.run.cov.get("pending_answers_flushed", 0) + len(answered)
+                # requests the node did answer (bytes of the answer started to go out, or later answers arrived) must
+                # have been flushed completely; requests it never answered while stopping are not judged
+                partial = len(sp.rxbuf) > 0
+                c = self.pending_conn.get(i)
+                left = 0 if c is None else len(c.write_buffer) + sum(1 for _ in list(c._write_msg_queue.queue))
+                if left and h.now - t0 < spec["wait_timeout"] - 1:
+                    # what the node had queued for the connection when it closed it
+                    self.witness("shutdown.pending_output_dropped_at_close",
+                                 {"conn": i, "bytes_or_messages_left": left, "answers_complete": len(answered)})
+                elif (0 < len(answered) < len(idl) or partial) and h.now - t0 < spec["wait_timeout"] - 1:
+                    self.witness("shutdown.pending_output_not_flushed_before_close",
+                                 {"conn": i, "answers_complete": len(answered), "of": len(idl), "partial_frame": partial})
             if newcomer is not None:
                 served = [f for f in newcomer.frames if f.h.code == 257 and not f.is_request]
                 if served:
